@@ -10,6 +10,8 @@ import LaytheVerif.Lemmas.ClassStore
 import LaytheVerif.Model.ClassSpec
 import LaytheVerif.Model.ClassLang
 import LaytheVerif.Model.ClassCompile
+import LaytheVerif.Gen.SuperSites
+import LaytheVerif.Lemmas.ClassLangDecl
 namespace LaytheVerif.C03
 open LaytheVerif.Classes LaytheVerif.ClassSpec
 
@@ -89,6 +91,20 @@ theorem buildCls_name (n : String) (id : Nat) (sup : Cls) (b : ClassBody) : (bui
   unfold buildCls
   rw [foldl_addMethod_name, foldl_addField_name]
   cases b.init <;> rfl
+
+theorem foldl_addMethod_superClass (ms : List (String × Nat)) (c : Cls) :
+    (ms.foldl (fun c p => c.addMethod p.1 p.2) c).superClass = c.superClass := by
+  induction ms generalizing c with
+  | nil => rfl
+  | cons p ms ih => simp only [List.foldl_cons]; rw [ih]; rfl
+
+theorem foldl_addField_superClass (fs : List String) (c : Cls) :
+    (fs.foldl Cls.addField c).superClass = c.superClass := by
+  induction fs generalizing c with
+  | nil => rfl
+  | cons f fs ih =>
+    simp only [List.foldl_cons]; rw [ih]
+    unfold Cls.addField; split <;> rfl
 
 /-! ## chains of any depth -/
 
@@ -457,6 +473,164 @@ theorem C03_super_lookup (vm : VM) (name : String) (sup : Nat) (root : Cls) (hro
   | none => simp only [VM.undefinedProperty]
   | some m => simp only [VM.resolveCall]
 
+/-! ### the cache slot of a fused super call: one class declaration evaluated with many parents -/
+
+/-- **[G]** `op_super_invoke` / `op_get_super` as they are in ops.rs now (regenerated by
+tools/translate_c03.py): the class comes off the stack, the cache is asked with *that class* as the key
+and filled with it, a miss looks the method up in that class — the rows `VM.opSuperInvokeC` mirrors -/
+theorem super_sites_eq_gen : Gen.SuperSites.facts = superSiteFacts := by decide
+
+/-- **[G]** … and the getter they use answers `Some` only under `cache.class == class` (cache.rs) -/
+theorem super_getters_eq_gen : Gen.SuperSites.getters = invokeGetterFacts := by decide
+
+/-- what a filled slot of the super site `name` may hold: a class together with the method a lookup of
+`name` in that class gives -/
+def SlotSound (s : Store) (name : String) (slot : InvokeSlot) : Prop :=
+  ∀ e, slot = some e → ∃ m, (s.get? e.cls).bind (·.getMethod name) = some m ∧ e.method = .closure m
+
+/-- the run has only added to the store: the method table of every class that exists is what it was
+(a class is complete when its declaration ends — `op_method` only ever writes to the class being
+declared — and a super site can only run after the declaration it sits in has ended) -/
+def MethodsKept (s s' : Store) : Prop :=
+  ∀ c cc, s.get? c = some cc → ∃ cc', s'.get? c = some cc' ∧ ∀ k, cc'.getMethod k = cc.getMethod k
+
+theorem MethodsKept.refl (s : Store) : MethodsKept s s := fun _ cc h => ⟨cc, h, fun _ => rfl⟩
+
+theorem SlotSound.mono {s s' : Store} {name : String} {slot : InvokeSlot}
+    (h : SlotSound s name slot) (hk : MethodsKept s s') : SlotSound s' name slot := by
+  intro e he
+  obtain ⟨m, hm, hcl⟩ := h e he
+  cases hc : s.get? e.cls with
+  | none => simp [hc] at hm
+  | some cc =>
+    obtain ⟨cc', h1, h2⟩ := hk e.cls cc hc
+    refine ⟨m, ?_, hcl⟩
+    simp only [hc, Option.bind_some] at hm
+    simp only [h1, Option.bind_some, h2 name, hm]
+
+theorem slotSound_none (s : Store) (name : String) : SlotSound s name none := by
+  intro e he; cases he
+
+/-- **C03_super_invoke_cache_transparent.**  One execution of a fused `super.name(args)`: whatever class
+`sup` the enclosing declaration was evaluated with *this time* and whatever the slot holds from earlier
+executions of the same instruction (for another evaluation of the declaration with another parent, or
+none), the instruction does exactly what the cache-less `op_super_invoke` does — the lookup of
+`C03_super_lookup`, from `sup` — and leaves a slot that is sound again. -/
+theorem C03_super_invoke_cache_transparent (vm : VM) (slot : InvokeSlot) (name : String) (argc : Nat)
+    (h : SlotSound vm.store name slot) :
+    (VM.opSuperInvokeC vm slot name argc).1 = VM.opSuperInvoke vm name argc ∧
+    SlotSound vm.store name (VM.opSuperInvokeC vm slot name argc).2 := by
+  unfold VM.opSuperInvokeC VM.opSuperInvokeWith VM.opSuperInvoke
+  cases hst : vm.stack with
+  | nil => exact ⟨rfl, h⟩
+  | cons top rest =>
+    cases top with
+    | cls sup =>
+      simp only
+      cases hslot : slot with
+      | none =>
+        simp only [getInvokeCache]
+        cases hm : (vm.store.get? sup).bind (·.getMethod name) with
+        | none => exact ⟨rfl, slotSound_none _ _⟩
+        | some m =>
+          refine ⟨rfl, ?_⟩
+          intro e he
+          cases he
+          exact ⟨m, hm, rfl⟩
+      | some e =>
+        simp only [getInvokeCache]
+        by_cases hc : e.cls = sup
+        · obtain ⟨m, hm, hcl⟩ := h e hslot
+          rw [hc] at hm
+          simp only [hc, if_true, hm, hcl]
+          exact ⟨trivial, hslot ▸ h⟩
+        · simp only [hc, if_false]
+          cases hm : (vm.store.get? sup).bind (·.getMethod name) with
+          | none => exact ⟨rfl, hslot ▸ h⟩
+          | some m =>
+            refine ⟨rfl, ?_⟩
+            intro e' he'
+            cases he'
+            exact ⟨m, hm, rfl⟩
+    | prim _ _ => exact ⟨rfl, h⟩
+    | inst _ => exact ⟨rfl, h⟩
+    | closure _ => exact ⟨rfl, h⟩
+    | native _ => exact ⟨rfl, h⟩
+    | bound _ _ => exact ⟨rfl, h⟩
+
+/-- the stores a site meets during a run only grow -/
+def StoresGrow : Store → List (VM × Nat) → Prop
+  | _, [] => True
+  | s, (vm, _) :: r => MethodsKept s vm.store ∧ StoresGrow vm.store r
+
+/-- **C03_super_site_any_parents.**  A whole run seen from one `super.name()` site: the instruction is
+executed any number of times, each time in another machine state and with another class pushed as the
+superclass — the enclosing class declaration may have been evaluated once per element of the list, every
+time with a different parent, in any order, with repetitions (`steps` is arbitrary).  Starting from the
+empty slot, every single execution enters the method the most-derived-first walk from the superclass *of
+that execution* finds: the site never dispatches on a parent it has seen before. -/
+theorem C03_super_site_any_parents (name : String) (steps : List (VM × Nat)) (s : Store) (slot : InvokeSlot)
+    (hslot : SlotSound s name slot) (hgrow : StoresGrow s steps) :
+    VM.superSiteRun getInvokeCache name slot steps = steps.map (fun p => VM.opSuperInvoke p.1 name p.2) := by
+  induction steps generalizing s slot with
+  | nil => rfl
+  | cons p r ih =>
+    obtain ⟨vm, argc⟩ := p
+    obtain ⟨h1, h2⟩ := hgrow
+    have key := C03_super_invoke_cache_transparent vm slot name argc (hslot.mono h1)
+    simp only [VM.superSiteRun, List.map_cons]
+    have e1 : (VM.opSuperInvokeWith getInvokeCache vm slot name argc).1 = VM.opSuperInvoke vm name argc := key.1
+    rw [e1]
+    congr 1
+    exact ih vm.store _ key.2 h2
+
+theorem C03_super_site_from_empty (name : String) (steps : List (VM × Nat)) (s : Store) (hgrow : StoresGrow s steps) :
+    VM.superSiteRun getInvokeCache name none steps = steps.map (fun p => VM.opSuperInvoke p.1 name p.2) :=
+  C03_super_site_any_parents name steps s none (slotSound_none s name) hgrow
+
+/-- the hypothesis `StoresGrow` is what the VM does: one more class declaration — for instance the next
+evaluation of the very declaration the site sits in, with another parent `sup` — keeps the method table of
+every class that exists, so a sound slot stays sound across it -/
+theorem methodsKept_declareClass (s s' : Store) (name : String) (sup c : Nat) (supc : Cls) (b : ClassBody)
+    (hsup : s.get? sup = some supc) (h : s.declareClass name sup b = some (s', c)) : MethodsKept s s' := by
+  intro j cj hj
+  exact ⟨cj, by rw [declareClass_frame s s' name sup c supc b hsup h j (Store.get?_lt s j cj hj)]; exact hj, fun _ => rfl⟩
+
+theorem MethodsKept.trans {a b c : Store} (h1 : MethodsKept a b) (h2 : MethodsKept b c) : MethodsKept a c := by
+  intro j cj hj
+  obtain ⟨cj', e1, e2⟩ := h1 j cj hj
+  obtain ⟨cj'', e3, e4⟩ := h2 j cj' e1
+  exact ⟨cj'', e3, fun k => by rw [e4 k, e2 k]⟩
+
+/-- **C03_factory_super_site.**  The class factory, end to end on the model: the declaration
+`class D : B { m() { super.name() } }` is evaluated twice (`declareClass` with the body `b` both times),
+first with parent `p1`, then with parent `p2`; afterwards the one `super.name()` site of `D` runs any number
+of times, in any order, for instances of either class (`steps`: every element pushes `p1` or `p2` — or any
+other class — as the superclass and has the final store or a later one).  Each execution enters what the
+lookup in *its own* superclass gives. -/
+theorem C03_factory_super_site (s0 s1 s2 : Store) (nameD name : String) (p1 p2 d1 d2 : Nat) (c1 c2 : Cls) (b : ClassBody)
+    (hp1 : s0.get? p1 = some c1) (hp2 : s1.get? p2 = some c2)
+    (hd1 : s0.declareClass nameD p1 b = some (s1, d1)) (hd2 : s1.declareClass nameD p2 b = some (s2, d2))
+    (steps : List (VM × Nat)) (hgrow : StoresGrow s2 steps) :
+    d1 ≠ d2 ∧
+    (∃ k1 k2, s2.get? d1 = some k1 ∧ s2.get? d2 = some k2 ∧ k1.superClass = some p1 ∧ k2.superClass = some p2) ∧
+    VM.superSiteRun getInvokeCache name none steps = steps.map (fun p => VM.opSuperInvoke p.1 name p.2) := by
+  obtain ⟨e1, g1, _⟩ := declareClass_eq_buildCls s0 s1 nameD p1 d1 c1 b hp1 hd1
+  obtain ⟨e2, g2, _⟩ := declareClass_eq_buildCls s1 s2 nameD p2 d2 c2 b hp2 hd2
+  have hlt : d1 < s1.classes.length := Store.get?_lt s1 d1 _ g1
+  refine ⟨by omega, ?_, C03_super_site_from_empty name steps s2 hgrow⟩
+  refine ⟨{ buildCls nameD p1 c1 b with metaClass := some (d1 + 1) }, { buildCls nameD p2 c2 b with metaClass := some (d2 + 1) },
+    ?_, g2, ?_, ?_⟩
+  · rw [declareClass_frame s1 s2 nameD p2 d2 c2 b hp2 hd2 d1 hlt]; exact g1
+  · show (buildCls nameD p1 c1 b).superClass = some p1
+    unfold buildCls
+    rw [foldl_addMethod_superClass, foldl_addField_superClass]
+    cases b.init <;> rfl
+  · show (buildCls nameD p2 c2 b).superClass = some p2
+    unfold buildCls
+    rw [foldl_addMethod_superClass, foldl_addField_superClass]
+    cases b.init <;> rfl
+
 /-- the dynamic counterpart: `receiver.name(args)` on an instance whose class was built from `chain`
 and which has no field `name` enters the most derived definition along the *receiver's* chain -/
 theorem C03_invoke_dispatch (vm : VM) (name : String) (a : Nat) (i : Inst) (root : Cls) (hroot : ClsWF root)
@@ -549,6 +723,61 @@ theorem C03_declare_matches_chain (s s' : Store) (name : String) (sup c : Nat) (
   have := buildCls_obsEq name sup parents.length supc (buildChain root parents) b hwf (buildChain_wf root hroot parents) hobs
   exact this
 
+/-! ## the Spec evaluator on class declarations that are evaluated more than once -/
+
+/-- an explicit parent is what the variable denotes *at this evaluation* of the declaration: the innermost
+binding of the name — the argument of the enclosing function for a class factory `fn mk(B) { class D : B {..} }` -/
+theorem C03_spec_explicit_parent_is_argument (env : List (String × ClassLang.Val)) (B : String) (c : Nat) :
+    ClassLang.resolveSuper ((B, .cls c) :: env) (some B) = pure (some c) := by
+  simp [ClassLang.resolveSuper, ClassLang.lookupEnv, ClassLang.superOfVal]
+
+/-- **C03_spec_factory_parents.**  The Spec on a class factory: the declaration `d` (`class D : B {..}`) is
+evaluated twice, in any two environments — where `B` denotes class `c1`, then where it denotes `c2`.  Both
+evaluations complete, they create two different classes, the first has parent `c1` and *still* has it after
+the second evaluation, the second has parent `c2`; heap, output and module variables are as before. -/
+theorem C03_spec_factory_parents (d : ClassLang.ClassDecl) (env1 env2 : List (String × ClassLang.Val)) (w : ClassLang.World)
+    (B : String) (c1 c2 : Nat) (hd : d.parent = some B)
+    (h1 : ClassLang.lookupEnv env1 B = some (.cls c1)) (h2 : ClassLang.lookupEnv env2 B = some (.cls c2)) :
+    ∃ w1 w2, ClassLang.runM (ClassLang.declareClass d env1 false) w = (.ok w.classes.size, w1) ∧
+      ClassLang.runM (ClassLang.declareClass d env2 false) w1 = (.ok (w.classes.size + 1), w2) ∧
+      (w2.classes[w.classes.size]?).map (·.parent) = some (some c1) ∧
+      (w2.classes[w.classes.size + 1]?).map (·.parent) = some (some c2) ∧
+      w2.out = w.out ∧ w2.heap = w.heap ∧ w2.globals = w.globals := by
+  obtain ⟨w1, r1, p1, s1, _, o1, hp1, g1⟩ := ClassLang.declare_parent d env1 w B c1 hd h1
+  obtain ⟨w2, r2, p2, _, f2, o2, hp2, g2⟩ := ClassLang.declare_parent d env2 w1 B c2 hd h2
+  refine ⟨w1, w2, r1, ?_, ?_, ?_, by rw [o2, o1], by rw [hp2, hp1], by rw [g2, g1]⟩
+  · rw [r2, s1]
+  · rw [f2 w.classes.size (by omega)]; exact p1
+  · rw [← s1]; exact p2
+
+/-- **C03_spec_super_from_own_parent.**  `super.name` in a method of class `k` — one particular evaluation of
+a declaration — starts its most-derived-first walk at the parent *that* evaluation recorded, whatever class
+the receiver has and whatever other evaluations of the same declaration exist in the world. -/
+theorem C03_spec_super_from_own_parent (w : ClassLang.World) (k p code : Nat) (kc : ClassLang.ClassRt) (v : ClassLang.Val)
+    (name : String) (fused : Bool) (hk : w.classes[k]? = some kc) (hp : kc.parent = some p)
+    (hm : mro (w.chain p) name = some code) :
+    ClassLang.runM (ClassLang.superGet { selfV := some v, lexCls := some k } name fused) w = (.ok (.bound v code), w) := by
+  simp only [ClassLang.runM, ClassLang.superGet, bind, ExceptT.bind, ExceptT.mk, ExceptT.run, ExceptT.bindCont, StateT.bind,
+    get, getThe, MonadStateOf.get, liftM, monadLift, MonadLift.monadLift, ExceptT.lift, StateT.get, pure, ExceptT.pure,
+    StateT.pure, StateT.run, Functor.map, StateT.map, hk, hp, hm]
+
+/-- the factory of the seed's demonstration, on the Spec evaluator: `fn logged(B) { class Logged : B { m() { return
+super.m() + 10; } } return Logged; }` applied to `Plain` (m = 1) and `Fancy` (m = 2); instances used interleaved -/
+def specFactoryDemo : List ClassLang.Item :=
+  let cls (n : String) (v : Int) : ClassLang.ClassDecl := { name := n, parent := none, init := none, methods := [{ name := "m", params := [], body := [.ret (.num v)] }], statics := [] }
+  [.cls (cls "Plain" 1), .cls (cls "Fancy" 2),
+   .fn { name := "logged", params := ["B"], body := [
+     .classS "Logged" (some "B") none [("m", [], [.ret (.add (.call (.superGet "m") []) (.num 10))])] [],
+     .ret (.var "Logged")] },
+   .stmt (.letS "LP" (.call (.var "logged") [.var "Plain"])),
+   .stmt (.letS "LF" (.call (.var "logged") [.var "Fancy"])),
+   .stmt (.print (.call (.get (.call (.var "LP") []) "m") [])),
+   .stmt (.print (.call (.get (.call (.var "LF") []) "m") [])),
+   .stmt (.print (.call (.get (.call (.var "LP") []) "m") []))]
+
+/- evaluated at build time (kernel reduction of the string operations is too slow for `decide`) -/
+#guard (ClassLang.runProgram specFactoryDemo).out == #["11", "12", "11"] && (ClassLang.runProgram specFactoryDemo).status == "Ok"
+
 /-! ## what is not proved -/
 
 /-- The whole-program statement of C03, **not proved**: for every class program, executing what the
@@ -628,6 +857,58 @@ theorem C03_witness_rebound_module_copy :
     superValue env (superLoad {} none) = some 7 ∧
     superValue env (superLoad { locals := ["Object"] } none) = some 0 := by
   decide
+
+/-! ### the class factory: non-vacuity and the witness of what the class key in the slot is for -/
+
+def bodyBase1 : ClassBody := { initFields := ["t"], init := some 10, methods := [("m", 11)], statics := [] }
+def bodyBase2 : ClassBody := { initFields := ["t", "n"], init := some 20, methods := [("m", 21)], statics := [] }
+def bodyD : ClassBody := { initFields := [], init := none, methods := [("m", 30)], statics := [] }
+
+/-- `Plain`, `Fancy`, then `fn logged(Base) { class Logged : Base { m() { super.m() } } }` applied to both:
+classes 3 and 5 are the bases, 7 and 9 the two evaluations of the one declaration -/
+def factoryStore : Option Store :=
+  (Store.bootstrap.1.declareClass "Plain" 0 bodyBase1).bind fun p1 =>
+  (p1.1.declareClass "Fancy" 0 bodyBase2).bind fun p2 =>
+  (p2.1.declareClass "Logged" p1.2 bodyD).bind fun d1 =>
+  (d1.1.declareClass "Logged" p2.2 bodyD).map fun d2 => d2.1
+
+def factoryVM (s : Store) (sup : Nat) (self : Nat) : VM :=
+  { store := s, heap := [{ cls := 7, slots := [] }, { cls := 9, slots := [] }], stack := [.cls sup, .inst self],
+    bi := { nilV := .prim 0 0, closureCls := 0, nativeCls := 0, methodCls := 0 } }
+
+/-- the two evaluations are two classes with their own parents, both with the method `m` of the declaration -/
+example : factoryStore.map (fun s => [(s.get? 7).bind (·.superClass), (s.get? 9).bind (·.superClass),
+    (s.get? 7).bind (·.getMethod "m"), (s.get? 9).bind (·.getMethod "m"),
+    (s.get? 3).bind (·.getMethod "m"), (s.get? 5).bind (·.getMethod "m")]) =
+    some [some 3, some 5, some 30, some 30, some 11, some 21] := by decide
+
+/-- the site `super.m()` of `Logged.m`, run for a `Logged(Plain)`, a `Logged(Fancy)` and a `Logged(Plain)`
+instance in this order: with the getter of cache.rs each call enters the `m` of its own parent (11, 21, 11) … -/
+theorem C03_factory_example :
+    factoryStore.map (fun s => (VM.superSiteRun getInvokeCache "m" none
+        [(factoryVM s 3 0, 0), (factoryVM s 5 1, 0), (factoryVM s 3 0, 0)]).map
+      (fun sig => match sig with | .enter f _ _ => some f | _ => none)) = some [some 11, some 21, some 11] := by
+  decide
+
+/-- **C03_witness_unkeyed_super_cache.**  … with a getter that answers from a filled slot *without comparing
+the class* ("a super site is lexically monomorphic") the second and third call enter the method of the
+first parent the site ever saw: `Logged(Fancy).m()` runs `Plain.m` on a `Fancy`-shaped instance.  The
+comparison in `get_invoke_cache` (tied by `super_getters_eq_gen`) is what `C03_super_site_any_parents`
+rests on. -/
+theorem C03_witness_unkeyed_super_cache :
+    factoryStore.map (fun s => (VM.superSiteRun getInvokeCacheUnkeyed "m" none
+        [(factoryVM s 3 0, 0), (factoryVM s 5 1, 0), (factoryVM s 3 0, 0)]).map
+      (fun sig => match sig with | .enter f _ _ => some f | _ => none)) = some [some 11, some 11, some 11] := by
+  decide
+
+/-- the hypothesis `StoresGrow` of `C03_super_site_any_parents` on a run in which the store does grow between
+two executions of the site: the second base and the second evaluation are declared after the first call -/
+example (s1 s2 : Store) (c : Nat) (supc : Cls) (vmA vmB : VM) (h0 : s1.get? 3 = some supc)
+    (h : s1.declareClass "Logged" 3 bodyD = some (s2, c)) (ha : vmA.store = s1) (hb : vmB.store = s2) :
+    StoresGrow s1 [(vmA, 0), (vmB, 0)] := by
+  refine ⟨ha ▸ MethodsKept.refl s1, ?_, trivial⟩
+  rw [ha, hb]
+  exact methodsKept_declareClass s1 s2 "Logged" 3 c supc bodyD h0 h
 
 /-- witness for known finding D25: in `o.f op= e` the compiler passes the *enclosing* class to
 `property_set` although the receiver is not `self`; the fixed index of the enclosing class addresses
